@@ -639,8 +639,84 @@ func c13KeyStateStreams(quick bool) []c13Stream {
 	return out
 }
 
+// c13HandoverStreams: a request that waits behind a holder (every single timeout-flag bit x every single
+// expiry-flag bit x Count 0/1 x expiry 0/10), then the holder's unlock, the waiter's unlock and a fresh lock of the
+// key: the hand-over from holder to waiter goes through different code for acknowledged / never-persisted /
+// millisecond / priority requests, and what it leaves behind is exercised by the requests that follow.
+func c13HandoverStreams(quick bool) []c13Stream {
+	var out []c13Stream
+	idFrame := func(t uint8, flag uint8, id byte, timeout, tflag, expried, eflag, count uint16, rcount uint8) []byte {
+		b := lockFrame(t, flag, 0, timeout, tflag, expried, eflag, count, rcount)
+		b[36] = id
+		return b
+	}
+	bits := []uint16{0}
+	for i := 0; i < 16; i++ {
+		bits = append(bits, 1<<i)
+	}
+	for _, tf := range bits {
+		for _, ef := range bits {
+			for _, cnt := range []uint16{0, 1} {
+				for _, ex := range []uint16{0, 10} {
+					if quick && tf != 0x1000 && ef != 0x0200 && (cnt != 1 || ex != 10) {
+						continue
+					}
+					s := whole(fmt.Sprintf("bin/handover/tflag%04x/eflag%04x/count%d/expiry%d", tf, ef, cnt, ex),
+						idFrame(1, 0, 3, 5, tf, ex, ef, cnt, 0), // waits behind the holder (LockId 2)
+						idFrame(2, 0, 2, 0, 0, 0, 0, 0, 0),      // the holder's unlock: hand-over
+						idFrame(2, 0, 3, 0, 0, 0, 0, 0, 0),      // the waiter's unlock
+						idFrame(1, 0, 4, 0, 0, 10, 0, 0, 0),     // a fresh lock of the key
+						idFrame(2, 0, 4, 0, 0, 0, 0, 0, 0))
+					s.Setup = [][]byte{idFrame(1, 0, 2, 0, 0, 30, 0, 0, 0)}
+					out = append(out, s)
+				}
+			}
+		}
+	}
+	return out
+}
+
+// c13InputEdgeStreams: more than one reader buffer (4096 bytes) of pipelined well-formed requests in ONE write, with a
+// value frame early in the burst so that the frame boundaries fall on every residue of the buffer size, and with a
+// value frame placed across the end of the buffer. Every request must be answered.
+func c13InputEdgeStreams(quick bool) []c13Stream {
+	var out []c13Stream
+	ping := frame(5, nil)
+	valLock := func(n int) []byte {
+		body := make([]byte, n)
+		if n > 1 {
+			body[0], body[1] = 0, 0
+		}
+		return append(lockFrame(1, 0x20, 0, 0, 0, 5, 0, 5, 5), dataFrame(uint32(n), body)...)
+	}
+	for L := 2; L <= 70; L++ {
+		all := valLock(L)
+		for i := 0; i < 70; i++ {
+			all = append(all, ping...)
+		}
+		out = append(out, c13Stream{Name: fmt.Sprintf("bin/input-edge/value%d-then-70-pings", L), Chunks: [][]byte{all}, Expect: 71 * 64})
+	}
+	for n := 58; n <= 64; n++ {
+		for _, vl := range []int{2, 40, 64, 200, 300, 1000} {
+			var all []byte
+			for i := 0; i < n; i++ {
+				all = append(all, ping...)
+			}
+			all = append(all, valLock(vl)...)
+			all = append(all, ping...)
+			all = append(all, ping...)
+			out = append(out, c13Stream{Name: fmt.Sprintf("bin/input-edge/%d-pings-value%d", n, vl), Chunks: [][]byte{all}, Expect: (n + 3) * 64})
+		}
+	}
+	return out
+}
+
 func c13Group(name string, quick bool) []c13Stream {
 	switch name {
+	case "handover":
+		return c13HandoverStreams(quick)
+	case "input-edge":
+		return c13InputEdgeStreams(quick)
 	case "pipeline":
 		return c13PipelineStreams(quick)
 	case "binary":
@@ -655,7 +731,7 @@ func c13Group(name string, quick bool) []c13Stream {
 
 func c13Cases(quick bool) []EnumCase {
 	var out []EnumCase
-	for _, g := range []string{"binary", "text", "split", "pipeline", "keystate"} {
+	for _, g := range []string{"binary", "text", "split", "pipeline", "keystate", "handover", "input-edge"} {
 		n := len(c13Group(g, quick))
 		chunk := 60
 		for f := 0; f < n; f += chunk {
